@@ -78,7 +78,19 @@ def parse_level_bytes(data: bytes) -> int:
 # ------------------------------------------------------------------ result-document manipulation
 
 
+FIXTURE_NAMES = {"code.py"}
+
+
+def _is_fixture_file(name, newfile):
+    base = name.split(":")[-1]
+    return base in FIXTURE_NAMES or base.endswith("/code.py") or name == newfile or _RENAMED.get(base, False)
+
+
+_RENAMED = {}
+
+
 def shift_doc(doc, dline, dcol, newfile):
+    _RENAMED[newfile] = True
     """Shift every location of a tool result document; rename the file it refers to."""
     doc = copy.deepcopy(doc)
 
@@ -100,12 +112,14 @@ def shift_doc(doc, dline, dcol, newfile):
                 for k in ("startColumn", "endColumn"):
                     if k in r:
                         r[k] += dcol
+            # only entries that refer to the fixture's own file are renamed: decoys for other files keep theirs
             if "file_path" in o and "line" in o:  # defectdojo
                 o["line"] += dline
-                o["file_path"] = newfile
-            if "component" in o and isinstance(o["component"], str):
+                if _is_fixture_file(o["file_path"], newfile):
+                    o["file_path"] = newfile
+            if "component" in o and isinstance(o["component"], str) and _is_fixture_file(o["component"], newfile):
                 o["component"] = newfile
-            if "uri" in o and isinstance(o["uri"], str) and ("artifactLocation" not in o):
+            if "uri" in o and isinstance(o["uri"], str) and ("artifactLocation" not in o) and _is_fixture_file(o["uri"], newfile):
                 o["uri"] = newfile
             for v in o.values():
                 walk(v)
@@ -478,6 +492,7 @@ def render(case, filename="code.py"):
     labels = []
     dropped_all = []
     line_base = 0
+    part_ranges = []  # [part index, first line, last line] in the final text (1-based, after prepended lines)
     multi = len(case["parts"]) > 1
     for i, part in enumerate(case["parts"]):
         p = dict(part)
@@ -491,12 +506,14 @@ def render(case, filename="code.py"):
         if part.get("results") is not None:
             docs.append(shift_doc(part["results"], line_base + dline, dcol, filename))
         parts_txt.append(code)
+        part_ranges.append([i, line_base + 1, line_base + code.count("\n")])
         line_base += code.count("\n")
         labels += ["op:" + (o[0] + ("=" + str(o[1]) if len(o) > 1 and o[0] == "wrap" else "")) for o in applied]
         dropped_all += dropped
     if not parts_txt:
         part = case["parts"][0]
         parts_txt = [part["code"] if part["code"].endswith("\n") else part["code"] + "\n"]
+        part_ranges = [[0, 1, parts_txt[0].count("\n")]]
         docs = [shift_doc(part["results"], 0, 0, filename)] if part.get("results") is not None else []
     text = "".join(parts_txt)
     base_level = parse_level(text)
@@ -522,6 +539,7 @@ def render(case, filename="code.py"):
             text = text + "".join(f"_tail{k} = {k}\n" for k in range(op[1]))
             labels.append("fop:append")
     docs = [shift_doc(d, pre_lines, 0, filename) for d in docs]
+    part_ranges = [[i, a + pre_lines, b + pre_lines] for i, a, b in part_ranges]
     # byte-level ops last
     for op in case.get("file_ops", []):
         if op[0] == "formfeed":
@@ -558,6 +576,8 @@ def render(case, filename="code.py"):
         "results": merge_docs(docs),
         "labels": labels + [f"parts={len(parts_txt)}"],
         "nparts": len(parts_txt),
+        "part_ranges": part_ranges,
+        "docs": docs,
         "dropped": dropped_all,
         "level": parse_level_bytes(raw),
     }
